@@ -6,6 +6,7 @@
        "exc": class name or None, "msg": str or None, "failed_at": index or None,
        "loaded": [package modules in sys.modules afterwards],
        "modules": {module: {public name: identity label}},   # names bound to package objects
+       "values": {module: {public name: digest}},            # names bound to plain data (tuples, dicts, strings, numbers ...)
        "all_public": {module: [every public name in vars(module)]}}
 
 A public name has no leading underscore.  A package object is a module of the package, or a class,
@@ -73,7 +74,36 @@ for n, k, v in bindings:
 modules = {n: {} for n in loaded}
 for n, k, v in bindings:
     modules[n][k] = label[id(v)]
-_res.update(loaded=loaded, modules=modules, all_public=all_public)
+# public names bound to plain data: a digest of the value, package classes / functions inside it named by their qualified name
+import hashlib
+def canon(v, depth=0):
+    if depth > 6:
+        return None
+    if v is None or isinstance(v, (bool, int, float, str, bytes)):
+        return repr(v)
+    if isinstance(v, (type, types.FunctionType)):
+        return "<%s.%s>" % (getattr(v, "__module__", "?"), getattr(v, "__qualname__", "?"))
+    if isinstance(v, types.ModuleType):
+        return "<module %s>" % v.__name__
+    if isinstance(v, (tuple, list)):
+        parts = [canon(x, depth + 1) for x in v]
+        return None if any(p is None for p in parts) else ("T(" if isinstance(v, tuple) else "L(") + ",".join(parts) + ")"
+    if isinstance(v, (set, frozenset)):
+        parts = [canon(x, depth + 1) for x in v]
+        return None if any(p is None for p in parts) else "S(" + ",".join(sorted(parts)) + ")"
+    if isinstance(v, dict):
+        parts = [(canon(a, depth + 1), canon(b, depth + 1)) for a, b in v.items()]
+        return None if any(a is None or b is None for a, b in parts) else "D(" + ",".join(sorted(a + ":" + b for a, b in parts)) + ")"
+    return None
+values = {n: {} for n in loaded}
+for n in loaded:
+    d = vars(sys.modules[n])
+    for k in all_public[n]:
+        if not belongs(d[k]) and not isinstance(d[k], (types.ModuleType, type, types.FunctionType)):
+            c = canon(d[k])
+            if c is not None:
+                values[n][k] = "=" + hashlib.sha1(c.encode("utf-8", "backslashreplace")).hexdigest()[:16]
+_res.update(loaded=loaded, modules=modules, all_public=all_public, values=values)
 sys.stdout.write("C20OBS " + json.dumps(_res, sort_keys=True) + "\n")
 '''
 
